@@ -176,17 +176,24 @@ func zzFewBitsValue(k int) float64 {
 // Index is the floor of approximateLog(v)*multiplier+indexOffset, computed by the real code, for default,
 // fractional and negative offsets (decoders build such mappings), and fits int32 inside the indexable range
 func zzC03RealIndexSkeleton(kind, k int) {
-	zzvBound("real Index skeleton", "interpolated mappings built for alpha=0.01 with offsets {default, 0.5, -0.5, 35.0028, -7.25}; values: every exponent in [-1000,1000] x the k leading significand bits free (k = 12 linear, 6 cubic), exact IEEE arithmetic")
+	zzvBound("real Index skeleton", "interpolated mappings built for alpha=0.01 with offsets {default, 0, 0.5, -0.5, 35.0028, -7.25, and three offsets that put index MinInt32 / MaxInt32 about 600.5 and 600.25 binades from 1 (next to the int32 limits)}; values: every exponent in [-1000,1000] x the k leading significand bits free (k = 12 linear, 6 cubic), exact IEEE arithmetic")
 	zzvExactFloatsOnly()
 	zzvSolverSeconds(300)
-	offs := []float64{0, 0.5, -0.5, 35.0028, -7.25}
+	offs := []float64{0, 0.5, -0.5, 35.0028, -7.25, 0, 0, 0}
 	oc := zzvChoose("offset", len(offs)+1)
+	// the last three offsets put index MinInt32 (MaxInt32) about 600.5 / 600.25 binades below (above) 1
+	extreme := func(mult float64) {
+		offs[5] = math.MinInt32 + math.Floor(600.5*mult)
+		offs[6] = math.MaxInt32 - math.Floor(600.5*mult)
+		offs[7] = math.MinInt32 + math.Floor(600.25*mult)
+	}
 	v := zzFewBitsValue(k)
 	var i int
 	var t, lo, hi float64
 	if kind == 1 {
 		m0, _ := NewLinearlyInterpolatedMapping(0.01)
 		m := m0
+		extreme(m0.multiplier)
 		if oc < len(offs) {
 			m, _ = NewLinearlyInterpolatedMappingWithGamma(m0.gamma, offs[oc])
 		}
@@ -196,6 +203,7 @@ func zzC03RealIndexSkeleton(kind, k int) {
 	} else {
 		m0, _ := NewCubicallyInterpolatedMapping(0.01)
 		m := m0
+		extreme(m0.multiplier)
 		if oc < len(offs) {
 			m, _ = NewCubicallyInterpolatedMappingWithGamma(m0.gamma, offs[oc])
 		}
